@@ -96,6 +96,36 @@ theorem takeN_length {n : Nat} {bs a r : Bytes} (h : takeN n bs = some (a, r)) :
   · simp at h; obtain ⟨rfl, rfl⟩ := h; simp; omega
   · simp at h
 
+/-- the compiled form of `takeN`: one pass over the `n` octets taken instead of
+measuring the whole remaining input on every call (the definition's
+`n ≤ bs.length` made every item-by-item decoder of the compiled driver quadratic
+in the section length).  Compiler-only replacement, justified by
+`takeN_eq_takeNFast`; the logical definition and every proof about it are
+untouched. -/
+def takeNFast.go : Nat → Bytes → Bytes → Option (Bytes × Bytes)
+  | 0, acc, r => some (acc.reverse, r)
+  | _ + 1, _, [] => none
+  | n + 1, acc, b :: r => go n (b :: acc) r
+
+def takeNFast (n : Nat) (bs : Bytes) : Option (Bytes × Bytes) := takeNFast.go n [] bs
+
+theorem takeNFast.go_eq : ∀ (n : Nat) (acc bs : Bytes),
+    takeNFast.go n acc bs = (takeN n bs).map fun p => (acc.reverse ++ p.1, p.2) := by
+  intro n
+  induction n with
+  | zero => intro acc bs; simp [takeNFast.go, takeN]
+  | succ n ih =>
+    intro acc bs
+    cases bs with
+    | nil => simp [takeNFast.go, takeN]
+    | cons b r =>
+      rw [takeNFast.go, ih]
+      simp only [takeN, List.length_cons, Nat.add_le_add_iff_right]
+      split <;> simp
+
+@[csimp] theorem takeN_eq_takeNFast : @takeN = @takeNFast := by
+  funext n bs
+  simp [takeNFast, takeNFast.go_eq]
 /-! ### hex I/O (driver only; nothing is proved about it) -/
 
 def hexDigit (n : Nat) : Char :=
